@@ -23,7 +23,10 @@ use rand::seq::SliceRandom;
 use std::cmp::max;
 use std::collections::HashMap;
 use std::net::Ipv4Addr;
+#[cfg(not(rdest_verif))]
 use tokio::net::{TcpListener, TcpStream};
+#[cfg(rdest_verif)]
+use crate::verif::net::{TcpListener, TcpStream};
 use tokio::sync::{broadcast, mpsc, oneshot};
 use tokio::task::JoinHandle;
 use tokio::time;
@@ -193,6 +196,8 @@ impl Session {
             .iter()
             .any(|(_, peer)| peer.download_rate.is_none() || peer.uploaded_rate.is_none())
         {
+            #[cfg(rdest_verif)]
+            self.verif_emit("RotateSkip", "", "");
             return Ok(());
         }
 
@@ -228,7 +233,17 @@ impl Session {
             state_after
         ))
         .await;
+        #[cfg(rdest_verif)]
+        let verif_rot = format!(
+            "\"order\":{},\"newopt\":{},\"seeder\":{},\"map\":{}",
+            Self::verif_rates(&rate),
+            Self::verif_strs(&new_optimistic),
+            is_seeder,
+            Self::verif_map(&cmd)
+        );
         let _ = self.general_channels.broad.send(cmd);
+        #[cfg(rdest_verif)]
+        self.verif_emit("Rotate", "", &verif_rot);
         Ok(())
     }
 
@@ -309,6 +324,10 @@ impl Session {
     }
 
     async fn handle_tracker_cmd(&mut self, cmd: TrackerCmd) {
+        #[cfg(rdest_verif)]
+        let verif_kind = crate::verif::variant(&cmd);
+        #[cfg(rdest_verif)]
+        self.verif_emit("TrackerBegin", "", &format!("\"kind\":\"{}\"", verif_kind));
         match cmd {
             TrackerCmd::TrackerResp(resp) => {
                 let peers = resp.peers();
@@ -330,15 +349,21 @@ impl Session {
             TrackerCmd::Fail(e) => self.log(format!("Tracker fail: {}", e)).await,
         }
         self.kill_tracker().await;
+        #[cfg(rdest_verif)]
+        self.verif_emit("Tracker", "", &format!("\"kind\":\"{}\"", verif_kind));
     }
 
     async fn handle_extractor_cmd(&mut self, cmd: ExtractorCmd) {
+        #[cfg(rdest_verif)]
+        let verif_kind = crate::verif::variant(&cmd);
         match cmd {
             ExtractorCmd::Done => self.log("File extractor finish".to_string()).await,
             ExtractorCmd::Fail(e) => self.log("File extractor fail: ".to_string() + &e).await,
         }
 
         self.kill_extractor().await;
+        #[cfg(rdest_verif)]
+        self.verif_emit("Extractor", "", &format!("\"kind\":\"{}\"", verif_kind));
     }
 
     async fn handle_peer_cmd(&mut self, cmd: PeerCmd) -> Result<bool, Error> {
@@ -396,7 +421,11 @@ impl Session {
 
         let peer = self.peers.get_mut(addr).ok_or(Error::PeerNotFound)?;
         let cmd = peer.handle_init(peer_id, &self.pieces_status);
+        #[cfg(rdest_verif)]
+        let verif_reply = crate::verif::variant(&cmd);
         let _ = resp_ch.send(cmd);
+        #[cfg(rdest_verif)]
+        self.verif_emit("Init", addr, &format!("\"reply\":\"{}\"", verif_reply));
         Ok(true)
     }
 
@@ -406,6 +435,8 @@ impl Session {
 
         let peer = self.peers.get_mut(addr).ok_or(Error::PeerNotFound)?;
         peer.handle_choke(&mut self.pieces_status);
+        #[cfg(rdest_verif)]
+        self.verif_emit("RecvChoke", addr, "");
         Ok(true)
     }
 
@@ -420,7 +451,11 @@ impl Session {
         let chosen_index = self.choose_piece_index(addr).await;
         let peer = self.peers.get_mut(addr).ok_or(Error::PeerNotFound)?;
         let cmd = peer.handle_unchoke(chosen_index, &mut self.pieces_status, &self.metainfo);
+        #[cfg(rdest_verif)]
+        let verif_reply = crate::verif::variant(&cmd);
         let _ = &resp_ch.send(cmd);
+        #[cfg(rdest_verif)]
+        self.verif_emit("RecvUnchoke", addr, &Self::verif_rc(&verif_reply, chosen_index));
         Ok(true)
     }
 
@@ -430,6 +465,8 @@ impl Session {
 
         let peer = self.peers.get_mut(addr).ok_or(Error::PeerNotFound)?;
         peer.handle_interested();
+        #[cfg(rdest_verif)]
+        self.verif_emit("RecvInterested", addr, "");
         Ok(true)
     }
 
@@ -444,7 +481,11 @@ impl Session {
         let chosen_index = self.choose_piece_index(addr).await;
         let peer = self.peers.get_mut(addr).ok_or(Error::PeerNotFound)?;
         let cmd = peer.handle_not_interested(chosen_index);
+        #[cfg(rdest_verif)]
+        let verif_reply = crate::verif::variant(&cmd);
         let _ = resp_ch.send(cmd);
+        #[cfg(rdest_verif)]
+        self.verif_emit("RecvNotInterested", addr, &Self::verif_rc(&verif_reply, chosen_index));
         Ok(true)
     }
 
@@ -456,7 +497,11 @@ impl Session {
     ) -> Result<bool, Error> {
         let peer = self.peers.get_mut(addr).ok_or(Error::PeerNotFound)?;
         let cmd = peer.handle_have(piece_index, &mut self.pieces_status, &self.metainfo);
+        #[cfg(rdest_verif)]
+        let verif_reply = crate::verif::variant(&cmd);
         let _ = resp_ch.send(cmd);
+        #[cfg(rdest_verif)]
+        self.verif_emit("RecvHave", addr, &format!("\"reply\":\"{}\",\"idx\":{}", verif_reply, piece_index));
         Ok(true)
     }
 
@@ -476,8 +521,12 @@ impl Session {
 
         let peer = self.peers.get_mut(addr).ok_or(Error::PeerNotFound)?;
         let cmd = peer.handle_bitfield(chosen_index, unchoked_num);
+        #[cfg(rdest_verif)]
+        let verif_reply = format!("{:?}", cmd);
         let _ = &resp_ch.send(cmd);
 
+        #[cfg(rdest_verif)]
+        self.verif_emit("RecvBitfield", addr, &format!("\"unchoked_num\":{},{}", unchoked_num, Self::verif_rc(&crate::verif::trace::esc(&verif_reply), chosen_index)));
         Ok(true)
     }
 
@@ -495,7 +544,11 @@ impl Session {
 
         let peer = self.peers.get_mut(addr).ok_or(Error::PeerNotFound)?;
         let cmd = peer.handle_request(piece_index, &self.pieces_status, &self.metainfo);
+        #[cfg(rdest_verif)]
+        let verif_reply = crate::verif::variant(&cmd);
         let _ = resp_ch.send(cmd);
+        #[cfg(rdest_verif)]
+        self.verif_emit("RecvRequest", addr, &format!("\"reply\":\"{}\",\"idx\":{}", verif_reply, piece_index));
         Ok(true)
     }
 
@@ -518,7 +571,11 @@ impl Session {
         let chosen_index = self.choose_piece_index(addr).await;
         let peer = self.peers.get_mut(addr).ok_or(Error::PeerNotFound)?;
         let cmd = peer.handle_piece(chosen_index, &mut self.pieces_status, &self.metainfo);
+        #[cfg(rdest_verif)]
+        let verif_reply = crate::verif::variant(&cmd);
         let _ = resp_ch.send(cmd);
+        #[cfg(rdest_verif)]
+        self.verif_emit("PieceDone", addr, &Self::verif_rc(&verif_reply, chosen_index));
         Ok(true)
     }
 
@@ -544,7 +601,11 @@ impl Session {
         let chosen_index = self.choose_piece_index(addr).await;
         let peer = self.peers.get_mut(addr).ok_or(Error::PeerNotFound)?;
         let cmd = peer.handle_piece(chosen_index, &mut self.pieces_status, &self.metainfo);
+        #[cfg(rdest_verif)]
+        let verif_reply = crate::verif::variant(&cmd);
         let _ = resp_ch.send(cmd);
+        #[cfg(rdest_verif)]
+        self.verif_emit("PieceCancel", addr, &Self::verif_rc(&verif_reply, chosen_index));
         Ok(true)
     }
 
@@ -564,6 +625,12 @@ impl Session {
         }
         let peer = self.peers.get_mut(addr).ok_or(Error::PeerNotFound)?;
         peer.handle_sync_stats(downloaded_rate, uploaded_rate);
+        #[cfg(rdest_verif)]
+        if let Some((dl, ul)) = crate::verif::rate_override(addr) {
+            peer.handle_sync_stats(&dl, &ul);
+        }
+        #[cfg(rdest_verif)]
+        self.verif_emit("SyncStats", addr, "");
         Ok(true)
     }
 
@@ -572,6 +639,8 @@ impl Session {
             .await;
         self.kill_peer(&addr).await;
 
+        #[cfg(rdest_verif)]
+        self.verif_emit("Kill", addr, &format!("\"reason\":\"{}\"", crate::verif::trace::esc(reason)));
         let have_all = self
             .pieces_status
             .iter()
@@ -588,6 +657,8 @@ impl Session {
             self.spawn_peer_handler();
         }
 
+        #[cfg(rdest_verif)]
+        self.verif_emit("KillEnd", addr, "");
         Ok(true)
     }
 
@@ -685,6 +756,8 @@ impl Session {
             return;
         }
 
+        #[cfg(rdest_verif)]
+        let verif_addr = addr.clone();
         let mut peer_handler = PeerHandler::new(
             addr.clone(),
             self.own_id,
@@ -699,6 +772,8 @@ impl Session {
 
         let peer = Peer::new(Some(peer_id), self.metainfo.pieces_num(), job);
         self.peers.insert(addr, peer);
+        #[cfg(rdest_verif)]
+        self.verif_emit("Spawn", &verif_addr, "");
     }
 
     async fn spawn_peer_listener(&mut self, socket: TcpStream) {
@@ -708,6 +783,8 @@ impl Session {
             .filter(|(_, peer)| !peer.am_interested)
             .count();
         if am_not_interested >= MAX_NOT_INTERESTED {
+            #[cfg(rdest_verif)]
+            self.verif_emit("AcceptReject", "", "");
             return;
         }
 
@@ -716,6 +793,8 @@ impl Session {
             Err(_) => return,
         };
 
+        #[cfg(rdest_verif)]
+        let verif_addr = addr.clone();
         let mut peer_handler = PeerHandler::new(
             addr.clone(),
             self.own_id,
@@ -732,6 +811,8 @@ impl Session {
             .await;
         let peer = Peer::new(None, self.metainfo.pieces_num(), job);
         self.peers.insert(addr, peer);
+        #[cfg(rdest_verif)]
+        self.verif_emit("Accept", &verif_addr, "");
     }
 
     async fn kill_view(&mut self) {
@@ -798,5 +879,111 @@ impl Session {
                 let _ = view.channel.send(cmd).await;
             }
         }
+    }
+}
+
+#[cfg(rdest_verif)]
+impl Session {
+    fn verif_rc(reply: &str, chosen: Option<usize>) -> String {
+        format!(
+            "\"reply\":\"{}\",\"chosen\":{}",
+            reply,
+            match chosen {
+                Some(i) => i.to_string(),
+                None => "null".to_string(),
+            }
+        )
+    }
+
+    fn verif_strs(v: &Vec<String>) -> String {
+        let items: Vec<String> = v
+            .iter()
+            .map(|s| format!("\"{}\"", crate::verif::trace::esc(s)))
+            .collect();
+        format!("[{}]", items.join(","))
+    }
+
+    fn verif_rates(v: &Vec<(String, u32)>) -> String {
+        let items: Vec<String> = v
+            .iter()
+            .map(|(a, r)| format!("[\"{}\",{}]", crate::verif::trace::esc(a), r))
+            .collect();
+        format!("[{}]", items.join(","))
+    }
+
+    fn verif_map(cmd: &BroadCmd) -> String {
+        match cmd {
+            BroadCmd::SendOwnState { am_choked_map } => {
+                let mut items: Vec<String> = am_choked_map
+                    .iter()
+                    .map(|(a, c)| format!("\"{}\":{}", crate::verif::trace::esc(a), c))
+                    .collect();
+                items.sort();
+                format!("{{{}}}", items.join(","))
+            }
+            _ => "null".to_string(),
+        }
+    }
+
+    /// Emit one manager event with the whole projected manager state.
+    fn verif_emit(&self, ev: &str, addr: &str, extra: &str) {
+        if !crate::verif::trace::on() {
+            return;
+        }
+        fn opt<T: ToString>(v: &Option<T>) -> String {
+            match v {
+                Some(x) => x.to_string(),
+                None => "null".to_string(),
+            }
+        }
+        let st: Vec<String> = self
+            .pieces_status
+            .iter()
+            .map(|s| match s {
+                Status::Missing => "\"M\"".to_string(),
+                Status::Reserved(n) => format!("\"R{}\"", n),
+                Status::Have => "\"H\"".to_string(),
+            })
+            .collect();
+        let mut peers: Vec<String> = self
+            .peers
+            .iter()
+            .map(|(a, p)| {
+                let pcs: Vec<&str> = p.pieces.iter().map(|b| if *b { "1" } else { "0" }).collect();
+                format!(
+                    "\"{}\":{{\"pi\":{},\"ai\":{},\"ac\":{},\"i\":{},\"c\":{},\"o\":{},\"id\":{},\"dl\":{},\"ul\":{},\"pcs\":[{}]}}",
+                    crate::verif::trace::esc(a),
+                    opt(&p.piece_index),
+                    p.am_interested,
+                    p.am_choked,
+                    p.interested,
+                    p.choked,
+                    p.optimistic_unchoke,
+                    p.id.is_some(),
+                    opt(&p.download_rate),
+                    opt(&p.uploaded_rate),
+                    pcs.join(",")
+                )
+            })
+            .collect();
+        peers.sort();
+        let extra = match extra.is_empty() {
+            true => String::new(),
+            false => format!("{},", extra),
+        };
+        crate::verif::trace::emit(
+            "mgr",
+            &format!(
+                "\"ev\":\"{}\",\"peer\":\"{}\",{}\"st\":[{}],\"peers\":{{{}}},\"round\":{},\"cands\":{},\"extracted\":{}",
+                ev,
+                crate::verif::trace::esc(addr),
+                extra,
+                st.join(","),
+                peers.join(","),
+                self.round,
+                self.candidates.len(),
+                self.files_extracted
+            ),
+        );
     }
 }
